@@ -12,10 +12,12 @@ import JsonV.Lemmas.WireBasic
 import JsonV.Lemmas.WireNumberScan
 import JsonV.Lemmas.WireString
 import JsonV.Lemmas.WireValue
+import JsonV.Lemmas.WireFuel
 import JsonV.Lemmas.GlueResume
 import JsonV.Lemmas.GlueResumeStr
 import JsonV.Gen.Constants
 import JsonV.Gen.Tables
+import JsonV.Gen.Lits
 
 namespace JsonV.Props.C01
 open JsonV JsonV.Model.Wire JsonV.Model.Validate JsonV.Spec.Grammar
@@ -44,6 +46,20 @@ theorem tie_escapeASCII : ∀ c : UInt8, c < 0x80 →
 /-- the regenerated `normKind` table is the model's `normKind`, for every byte. -/
 theorem tie_normKind : ∀ c : UInt8, (normKind c).toNat = Gen.jsontext_normKind.getD c.toNat 999 := by
   apply forall_u8; decide +kernel
+
+/-- the whitespace bytes of the model are exactly the character literals of `jsonwire.ConsumeWhitespace`
+(regenerated from the source: space, tab, CR, LF) -/
+theorem tie_ws_literals : ∀ c : UInt8, isWs c = Gen.jsonwire_ConsumeWhitespace_strs.contains [c.toNat] := by
+  apply forall_u8; decide +kernel
+
+/-- the only character literal of `jsonwire.ConsumeSimpleString` is the double quote (twice), and
+`hasEscapedUTF16Prefix` compares against exactly the literals the model uses
+(`\\ u d D c f C F 0 9 a f A F`, indices `0 1 2 3 2 6`). -/
+theorem tie_string_literals :
+    Gen.jsonwire_ConsumeSimpleString_strs = [[0x22], [0x22]] ∧
+    Gen.jsonwire_hasEscapedUTF16Prefix_strs =
+      [[0x5C], [0x75], [0x64], [0x44], [0x63], [0x66], [0x43], [0x46], [0x30], [0x39], [0x61], [0x66], [0x41], [0x46]] ∧
+    Gen.jsonwire_hasEscapedUTF16Prefix_ints = [0, 1, 2, 3, 2, 6] := by decide
 
 /-! ### Whitespace -/
 
@@ -231,6 +247,11 @@ theorem valid_sound (o : VOpts) (b : Bytes) (h : isValid o b = true) :
   unfold isValid at h
   have : (validText o b).2 = .ok := by simpa using h
   exact validText_sound o b (validText o b).1 (Prod.ext rfl this)
+
+/-- "`fuelFor` suffices": the validator model never answers with the artificial out-of-fuel class, for any
+input (the fuel `3·|b| + 4` covers the at most three nested calls per consumed byte). -/
+theorem valid_no_fuel (o : VOpts) (b : Bytes) : (validText o b).2 ≠ .fuel :=
+  JsonV.Lemmas.WireFuel.validText_no_fuel o b
 
 /-- The full statements that are NOT proved.  `valid_complete_full` is the converse of `valid_sound`
 (including "`fuelFor` suffices"); `stream_iff_full` is the stream recogniser; `token_value_full` says that the
